@@ -7,7 +7,15 @@ pid, name = sys.argv[1], sys.argv[2]
 checks = sys.argv[3:] or [pid]
 root = os.environ.get("SEED_ROOT", "/tmp/seed")
 src = "%s/%s/%s" % (root, pid, name)
-wt = "/work/mut"
+# SEED_WT: scratch worktree (default /work/mut); SEED_PRIVATE=1: private copy of the lake project and of the
+# trial evidence directory next to the worktree, so that several seeds can be confirmed in parallel
+wt = os.environ.get("SEED_WT", "/work/mut")
+envp = ""
+if os.environ.get("SEED_PRIVATE"):
+    if not os.path.isdir(wt + "-lean"):
+        os.makedirs(os.path.dirname(wt), exist_ok=True)
+        subprocess.run("cp -a /verif/lean %s-lean" % wt, shell=True, check=True)
+    envp = "VERIF_LEAN=%s-lean VERIF_TRIAL_EVIDENCE=%s-evidence " % (wt, wt)
 def sh(cmd, **kw):
     p = subprocess.run(cmd, shell=True, stdout=subprocess.PIPE, stderr=subprocess.STDOUT, text=True, **kw)
     return p.returncode, p.stdout
@@ -30,7 +38,7 @@ tests_ok = all("test_no_timing_error_accumulated" in l for l in failed) and ("pa
 rc1, o1 = sh(cmd, timeout=900)
 results = {}
 for c in checks:
-    r, out = sh("cd /verif && VERIF_REPO=%s ./check %s --tier quick 2>&1 | grep -E 'VIOLATION|tier='" % (wt, c), timeout=3600)
+    r, out = sh("cd /verif && %sVERIF_REPO=%s ./check %s --tier quick 2>&1 | grep -E 'VIOLATION|tier=|INTERNAL|TIMEOUT'" % (envp, wt, c), timeout=3600)
     results[c] = out.strip().split("\n")
 sh("git -C %s reset -q --hard %s && git -C %s clean -fdq" % (wt, head, wt))
 rc2, o2 = sh(cmd, timeout=900)
